@@ -302,7 +302,7 @@ def worker(run, st_, k, items):
                 continue
             st_.klass("disagree")
             for kind, det in v:
-                sig = runner.norm_sig((inst["family"], inst["size"], inst["form"] if inst["family"] in ("push", "pop", "jmp", "call", "ret") else "", kind, count_class(inst, s)))
+                sig = runner.norm_sig((inst["family"], inst["size"], inst["form"] if (inst["family"] in ("push", "pop", "jmp", "call", "ret") or inst["form"].endswith(("-a16", "-o16", "_esp"))) else "", kind, count_class(inst, s)))
                 if not any(f[0] == sig for f in st_.failures):
                     st_.fail(sig, "%s (%s), state %d [eflags=0x%x regs=%s]: %s" % (inst["text"], code.hex(), j, s["eflags"], ["%x" % x for x in s["regs"]], det),
                              {"inst": inst, "code": code.hex(), "state": j, "seed": run.seed, "sig": list(sig)})
@@ -353,7 +353,7 @@ def replay(run, case):
         return None
     want = run.want_sig
     for kind, det in v:
-        sig = runner.norm_sig((inst["family"], inst["size"], inst["form"] if inst["family"] in ("push", "pop", "jmp", "call", "ret") else "", kind, count_class(inst, s)))
+        sig = runner.norm_sig((inst["family"], inst["size"], inst["form"] if (inst["family"] in ("push", "pop", "jmp", "call", "ret") or inst["form"].endswith(("-a16", "-o16", "_esp"))) else "", kind, count_class(inst, s)))
         if want is None or sig == want:
             return (sig, det)
     return None
